@@ -1,0 +1,113 @@
+//! Observation hooks for external verification tooling.
+//!
+//! Compiled only with the cargo feature `verif-hooks`; without the feature this module does not exist
+//! and no hook call is compiled into the crate.
+//!
+//! The module has no behaviour of its own: [`emit`] forwards an [`Event`] to the process-global hook
+//! installed with [`set_hook`], if any. What the hook does with the event (count, gauge, delay or block
+//! the emitting thread) is entirely up to the installer.
+
+use std::sync::atomic::{AtomicBool, Ordering};
+use std::sync::{Arc, RwLock};
+
+/// Points of a parallel run at which a hook is called.
+#[derive(Clone, Copy, Debug, PartialEq, Eq)]
+pub enum Event {
+    /// The runner has resolved its settings; emitted by the spawning thread before any worker is spawned.
+    RunBegin {
+        /// Resolved upper bound on the number of worker threads.
+        max_num_threads: usize,
+        /// Resolved initial chunk size.
+        chunk_size: usize,
+        /// Whether the resolved chunk size is `Exact` (otherwise `Min`).
+        exact: bool,
+        /// Length of the input, if known.
+        input_len: Option<usize>,
+    },
+    /// Spawning thread: immediately before it evaluates `do_spawn`.
+    BeforeSpawnDecision {
+        /// Number of workers spawned so far.
+        num_spawned: usize,
+    },
+    /// Spawning thread: after a lag period, immediately before it evaluates `next_chunk_size`.
+    AfterLag {
+        /// Number of workers spawned so far.
+        num_spawned: usize,
+    },
+    /// Spawning thread: immediately before the final, unconditional spawn.
+    BeforeFinalSpawn {
+        /// Number of workers spawned so far.
+        num_spawned: usize,
+    },
+    /// Spawning thread: all workers are spawned; it is about to wait for them.
+    SpawnerWaits {
+        /// Number of workers spawned in total.
+        num_spawned: usize,
+    },
+    /// Worker thread: first thing it does, before its first pull.
+    WorkerBegin {
+        /// Chunk size handed to this worker.
+        chunk_size: usize,
+    },
+    /// Worker thread: its task returned or is unwinding.
+    WorkerEnd,
+    /// Spawning thread: the run is over, all workers are joined.
+    RunEnd {
+        /// Whether the run ends by unwinding.
+        panicking: bool,
+    },
+}
+
+type Hook = Arc<dyn Fn(Event) + Send + Sync>;
+
+static HOOK: RwLock<Option<Hook>> = RwLock::new(None);
+
+/// `true` while a hook is installed; read with `Relaxed` so that, with no hook installed, `emit` adds no
+/// synchronisation between the threads of a run.
+static INSTALLED: AtomicBool = AtomicBool::new(false);
+
+/// Installs (or with `None` removes) the process-global hook.
+pub fn set_hook(hook: Option<Hook>) {
+    let mut guard = match HOOK.write() {
+        Ok(g) => g,
+        Err(p) => p.into_inner(),
+    };
+    INSTALLED.store(hook.is_some(), Ordering::Relaxed);
+    *guard = hook;
+}
+
+pub(crate) fn emit(event: Event) {
+    if !INSTALLED.load(Ordering::Relaxed) {
+        return;
+    }
+    let hook = {
+        let guard = match HOOK.read() {
+            Ok(g) => g,
+            Err(p) => p.into_inner(),
+        };
+        guard.clone()
+    };
+    if let Some(hook) = hook {
+        hook(event);
+    }
+}
+
+/// Emits [`Event::WorkerEnd`] when dropped, hence also while a worker unwinds.
+pub(crate) struct WorkerGuard;
+
+impl Drop for WorkerGuard {
+    fn drop(&mut self) {
+        emit(Event::WorkerEnd);
+    }
+}
+
+/// Emits [`Event::RunEnd`] when dropped, hence also when the run unwinds.
+pub(crate) struct RunGuard;
+
+impl Drop for RunGuard {
+    fn drop(&mut self) {
+        emit(Event::RunEnd {
+            panicking: std::thread::panicking(),
+        });
+    }
+}
